@@ -17,10 +17,10 @@ CHECKS = {
          "All shape pairs at all gaps and signs, arm-targeted near-equal pairs for every gap 0..35 (equal values in different cohorts, values differing in one dropped digit), special table, predicates on every cohort member and zero exponent, explicit triples; every answer of Cmp/CmpAbs/Equal/Compare/Min/Max/IsZero/Sign compared with the exact order.",
          "Exhaustive over shapes and gaps, not over all digit values."),
  "C05": ("model_checking", "explicit-state conformance of the parser with a reference automaton: all strings up to length N over a 15-symbol alphabet, plus bounded-exhaustive structured literals against an exact literal evaluator",
-         "Every string up to the length bound through Parse/UnmarshalText/MustParse judged against the reference grammar and exact evaluator; structured literals of every length 1..45 and around 32768/65536 digits, every dot position, leading-zero runs, exponent fields across every threshold, lead-digit prefixes at accumulator limits, 6 DefaultRoundingMode values; Scan on valid numerals.",
+         "Every string up to the length bound through Parse/UnmarshalText/MustParse judged against the reference grammar and exact evaluator; structured literals of every length 1..45 and around 32768/65536 digits, every dot position, leading-zero runs, exponent fields across every threshold, lead-digit prefixes at accumulator limits, 6 DefaultRoundingMode values; every byte of short well-formed literals replaced by each of the 256 byte values and single-bit flips of long ones; literals of up to 400000 digits whose exponent field is compensated by the position of the point; Scan on valid numerals.",
          "Strings the documentation does not pin (signed NaN, '_' in exponent digits) are not judged; UnmarshalText may leave the receiver alone on a range error."),
  "C06": ("exploration", "bounded-exhaustive enumeration (coefficient cohorts x all 12288 exponents) against the reference shortest layout, plus parse round trip",
-         "Every shape with trailing-zero cohorts at every exponent and sign through String/MarshalText/%v/Format/Append(-1), digit-pair sweep of the extractor, zeros at every exponent, specials; text must equal the reference layout and parse back to the same value and sign.",
+         "Every shape with trailing-zero cohorts at every exponent and sign through String/MarshalText/%v/Format/Append(-1), digit-pair sweep of the extractor, zeros at every exponent, specials, every sequence of up to four values formatted into one reused buffer, and the values reached by two-step operation sequences on the real implementation; text must equal the reference layout and parse back to the same value and sign.",
          "Reference layout = strconv shortest layout on exact digits (bound to the toolchain in C07)."),
  "C07": ("model_checking", "conformance with a reference formatter model over the product value x verb x precision x width x flag subsets; model validated against the installed fmt/strconv on float64-exact values every run",
          "Reference formatter (exact digits, half-even rounding, strconv layout, fmt flags) compared with fmt.Sprintf, Decimal.Append (nil and caller-supplied buffers: empty with capacity 1, a prefix in a tight and in a roomy buffer), Format and Append on every value/spec combination and flag sequences; the model itself must reproduce the toolchain's output for every float64-exact value and spec first.",
@@ -38,10 +38,10 @@ CHECKS = {
          "Shapes x every exponent (subset) and exponent windows (all), perfect squares/cubes and their neighbours, all leading-digit prefixes, both functions and signs; the property's own integer criterion is evaluated exactly; perfect powers must give exact roots.",
          "No numerical approximation is involved."),
  "C18": ("exploration", "bounded-exhaustive ladder x base/exponent product against exact shortcut rules and a two-precision big.Float oracle with the property's tolerance formula",
-         "Every shortcut case (y in 0, +-1, +-0.5 cohorts, integers in every encoding k*10^e, powers of ten for every k, negative bases) must be exact; word-structured bases/exponents and powers of two and five as bases; general pairs incl. bases near 1, every leading pair, exponents landing at the thresholds to a few ulps, all six modes; Pow == PowWithMode under every default mode.",
+         "Every shortcut case (y in 0, +-1, +-0.5 cohorts, integers in every encoding k*10^e, powers of ten for every k, negative bases) must be exact; word-structured bases/exponents and powers of two and five as bases; general pairs incl. bases near 1, every leading pair, exponents landing at the thresholds to a few ulps, bases at both ends of every logarithm-table slot against fixed fractions of the threshold exponent (amplified logarithm error), all six modes; Pow == PowWithMode under every default mode.",
          "Beyond the range both Inf/zero and the mode-rounded extreme are accepted; oracle bound to the repository's Pow vectors (simple.txt)."),
  "C20": ("model_checking", "stateless exploration of all thread interleavings (preemption-bounded DFS under a hand-written cooperative scheduler on an AST-instrumented overlay build of the current sources) + exhaustive totality/purity enumeration + supplementary free-running -race pass",
-         "Totality and purity over every exported entry point with extreme arguments, fault-injecting fmt.State/ScanState stubs and a generated snapshot of all package-level variables; all interleavings of 2-3 threads x 2 operations for every pair of a 19-entry operation menu on shared operands up to the preemption bound, results compared with sequential execution; recorded schedules are replayed for determinism.",
+         "Totality and purity over every exported entry point with extreme arguments, fault-injecting fmt.State/ScanState stubs and a generated snapshot of all package-level variables; ownership of returned memory (every slice/big-value-returning entry point on ordered value pairs: results held, overwritten over their whole capacity, calls repeated); all interleavings of 2-3 threads x 2 operations for every pair of a 19-entry operation menu on shared operands up to the preemption bound, results compared with sequential execution; recorded schedules are replayed for determinism.",
          "Scheduling points are statement-level accesses to package variables (plus function entries/loops after a reference escapes); finer memory-model effects are only sampled by the -race pass; capped scenarios are reported with exhaustive:false."),
  "C19": ("model_checking", "cohort-closure search: every encoding of each base value x every observer; executions that must be indistinguishable are compared with each other; Canonical against the direct definition over shapes x all exponents",
          "All cohort members (generated by x10//10 transitions) of each base value through ~150 unary observers and all binary operations (member x member product on a reduced base, one side at a time otherwise); Canonical bit-exact against the normal-form definition over every exponent and all special prefixes.",
